@@ -266,6 +266,20 @@ func init() {
 		}
 		return ret(st, nc)
 	}
+	models["(*math/rand.Rand).Intn"] = func(fr *Frame, st *State, args []Value, sig *types.Signature) []Outcome {
+		n := args[1].(Scalar).T
+		fr.safety(st, Lt(Int(0), n), "rand.Intn with n <= 0")
+		r := Var(st.eng.fresh("rand"), SInt)
+		st.assume(And(Le(Int(0), r), Lt(r, n)))
+		return ret(st, Scalar{r})
+	}
+	// sort.Search(n, f): some index in [0, n] (the predicate is not interpreted)
+	models["sort.Search"] = func(fr *Frame, st *State, args []Value, sig *types.Signature) []Outcome {
+		n := args[0].(Scalar).T
+		r := Var(st.eng.fresh("search"), SInt)
+		st.assume(And(Le(Int(0), r), Le(r, n)))
+		return ret(st, Scalar{r})
+	}
 	models["strings.ToLower"] = func(fr *Frame, st *State, args []Value, sig *types.Signature) []Outcome {
 		return ret(st, Scalar{strLower(args[0].(Scalar).T)})
 	}
@@ -338,6 +352,9 @@ func init() {
 		n := &MapObj{T: mo.T, Base: mo.Base, Entries: append(append([]mapEntry{}, mo.Entries...), mapEntry{K: args[1], V: args[2]})}
 		st.heap[mr.H.String()] = Cell{V: n}
 		fr.recordWriteT(Ptr{H: mr.H}, nil)
+		if fr.dry != nil {
+			fr.dry.ghosts["mapstore:"+mr.H.String()] = true
+		}
 		return []Outcome{{St: st}}
 	}
 	models["(*sync.Map).Delete"] = func(fr *Frame, st *State, args []Value, sig *types.Signature) []Outcome {
@@ -367,6 +384,137 @@ func init() {
 			f2.recordWriteT(Ptr{H: mr.H}, nil)
 			outs = append(outs, Outcome{St: s2, Res: []Value{args[2], Scalar{False}}})
 		})
+		return outs
+	}
+}
+
+// (*sync.Map).Range(f): a loop over a ghost enumeration of the entries present at the call, cut by the
+// invariants "range n invariant" of the calling function. visited (a set of key handles) is ghost.
+func init() {
+	models["(*sync.Map).Range"] = func(fr *Frame, st *State, args []Value, sig *types.Signature) []Outcome {
+		mr := syncMapOf(fr, st, args[0])
+		f, ok := args[1].(Func)
+		if !ok || f.Fn == nil {
+			fail("sync.Map.Range with a symbolic callback")
+		}
+		fr.calls["<range>"]++
+		ord := fr.calls["<range>"]
+		var invs []*Clause
+		if fr.ctr != nil {
+			for _, cl := range fr.ctr.Clauses {
+				if cl.Kind == "rangeinv" && cl.Loop == ord {
+					invs = append(invs, cl)
+				}
+			}
+		}
+		if len(invs) == 0 {
+			fr.v.note(fmt.Sprintf("Range %d of %s has no invariant (cut with 'true')", ord, fr.fn))
+		}
+		mo0 := st.mapCell(mr) // entries at the call: the enumeration ranges over these
+		setVisited := func(s *State, t *Term) { s.ghost["range.visited"] = Scalar{t} }
+		has0 := func(s *State, key Value) *Term {
+			_, h, err := s.mapGet(mo0, key)
+			if err != nil {
+				fail("Range: %v", err)
+			}
+			return h
+		}
+		st.ghost["range.map0"] = mr
+		fr.v.rangeMap0 = mo0
+		// invariant on entry (nothing visited)
+		setVisited(st, SetEmpty())
+		if fr.dry == nil && fr.v.verifying {
+			env := fr.localEnv(st)
+			for _, cl := range invs {
+				fr.v.emit(fr, st, "inv-entry", fmt.Sprintf("range%d/%s/entry", ord, cl.Name), env.evalBool(cl.Expr), "Range invariant on entry")
+			}
+		}
+		kt := sig.Params().At(0).Type().(*types.Signature).Params().At(0).Type()
+		// write set of one iteration (dry run), then havoc
+		d := &dryCtx{writes: map[string]map[int]bool{}, types: map[string]types.Type{}, ghosts: map[string]bool{}, depth: -1}
+		func() {
+			f2, s2 := fr.clone(), st.clone()
+			f2.dry = d
+			defer func() {
+				if r := recover(); r != nil {
+					if e, ok := r.(execErr); ok {
+						fr.v.note("dry run of Range callback aborted: " + e.msg)
+						return
+					}
+					panic(r)
+				}
+			}()
+			e := s2.freshValue(kt, "range.dry.k")
+			f2.callFn(s2, f.Fn, append(append([]Value{}, f.Bind...), e, s2.freshValue(kt, "range.dry.v")), 0)
+		}()
+		delete(d.ghosts, "range.visited")
+		fr.havocWrites(st, d)
+		// a callback that only deletes from the map it ranges over leaves a subset of the original entries
+		if _, written := d.writes[mr.H.String()]; written && !d.ghosts["mapstore:"+mr.H.String()] {
+			hq := Var(st.eng.fresh("q.k"), SInt)
+			kv := st.symValue(kt, hq)
+			_, hasNew, err := st.mapGet(st.mapCell(mr), kv)
+			if err == nil {
+				st.assume(Forall([]*Term{hq}, Implies(hasNew, has0(st, kv))))
+			}
+		}
+		for g := range d.ghosts {
+			if strings.HasPrefix(g, "mapstore:") {
+				delete(d.ghosts, g)
+			}
+		}
+		vis := Var(st.eng.fresh("visited"), SSetInt)
+		setVisited(st, vis)
+		{
+			env := fr.localEnv(st)
+			for _, cl := range invs {
+				st.assume(env.evalBool(cl.Expr))
+			}
+		}
+		var outs []Outcome
+		// (B) one more iteration
+		{
+			s2 := st.clone()
+			f2 := fr.clone()
+			e := s2.freshValue(kt, "range.k").(Iface)
+			val := s2.freshValue(kt, "range.v")
+			s2.assume(Neq(e.Tid, Int(0)))
+			s2.assume(has0(s2, e))
+			s2.assume(Not(SetHas(vis, e.Box)))
+			s2.trace = append(s2.trace, fmt.Sprintf("range%d:iter", ord))
+			for _, o := range f2.callFn(s2, f.Fn, append(append([]Value{}, f.Bind...), e, val), 0) {
+				if o.St.dead {
+					continue
+				}
+				if o.Panic {
+					outs = append(outs, o)
+					continue
+				}
+				setVisited(o.St, SetAdd(vis, e.Box))
+				cont := o.Res[0].(Scalar).T
+				// continue == true: invariant must be re-established, path ends
+				sT := o.St.clone()
+				sT.assume(cont)
+				if !sT.dead && fr.dry == nil && fr.v.verifying {
+					env := fr.localEnv(sT)
+					for _, cl := range invs {
+						fr.v.emit(fr, sT, "inv-preserved", fmt.Sprintf("range%d/%s/preserved", ord, cl.Name), env.evalBool(cl.Expr), "Range invariant preserved")
+					}
+				}
+				// continue == false: Range returns early with this state
+				o.St.assume(Not(cont))
+				if !o.St.dead {
+					o.St.trace = append(o.St.trace, fmt.Sprintf("range%d:stopped", ord))
+					outs = append(outs, Outcome{St: o.St})
+				}
+			}
+		}
+		// (A) enumeration exhausted: every entry present at the call has been visited
+		h := Var(st.eng.fresh("q.h"), SInt)
+		anyKey := st.symValue(kt, h)
+		st.assume(Forall([]*Term{h}, Implies(And(Neq(UF("tid", SInt, h), Int(0)), has0(st, anyKey)), SetHas(vis, h))))
+		st.trace = append(st.trace, fmt.Sprintf("range%d:done", ord))
+		outs = append(outs, Outcome{St: st})
 		return outs
 	}
 }
